@@ -36,6 +36,8 @@ type Proj struct {
 	ExtraFiles  map[string]string `json:"extra_files,omitempty"` // e.g. a file with an unknown extension
 	ExtraGlobs  []string          `json:"extra_globs,omitempty"`
 	Note        string            `json:"note,omitempty"`
+	SchemaGlob  string            `json:"schema_glob,omitempty"` // one glob standing for all schema files
+	OpsGlob     string            `json:"ops_glob,omitempty"`    // one glob standing for all operation files
 }
 
 func (p *Proj) program(s *gen.Schema) *core.Program {
@@ -46,10 +48,16 @@ func (p *Proj) program(s *gen.Schema) *core.Program {
 		schemaGlobs = append(schemaGlobs, k)
 	}
 	sort.Strings(schemaGlobs)
+	if p.SchemaGlob != "" {
+		schemaGlobs = []string{p.SchemaGlob}
+	}
 	for k, v := range p.ExtraFiles {
 		files[k] = v
 	}
 	ops := append(p.Layout.Globs(), p.ExtraGlobs...)
+	if p.OpsGlob != "" && len(p.ExtraGlobs) == 0 {
+		ops = []string{p.OpsGlob}
+	}
 	cfg := p.Cfg
 	if cfg == nil {
 		cfg = &gen.CfgOpts{}
